@@ -13,13 +13,14 @@ PRELUDE = r'''
 #include "vs_common.h"
 int vs_exc; bool g_hit_end;
 /* ghost: the parser holds bytes of a response (fed since the last reset); how often it was reset / the connection released */
-bool g_parser_dirty; size_t g_resets, g_released, g_resolved, g_rejected;
+bool g_parser_dirty; size_t g_resets, g_released, g_resolved, g_rejected, g_timer_released, g_parse_done;
 struct vs_rparser { struct vs_opaque response; };
 struct vs_opaque vs_timer_slot;          /* the TimerPool::Entry a request's timer pointer refers to */
 /* std::unique_ptr<RequestEntry>: empty, or owning an entry (resolver, rejection, timer, completion callback: all opaque here) */
 struct vs_re { struct vs_opaque resolve, reject, timer, onDone; };
 struct vs_up_re { bool has; struct vs_re v; };
 static inline bool vs_nondet_bool(void) { bool b; return b; }
+#define VS_STATE_DONE 2   /* Private::State::Done (checked against the lowered enumerator below) */
 /* ResponseParser (unit httpparse): feed() refuses when the maximum response size would be exceeded; parse() yields a state or raises */
 static inline bool vs_parser_feed(void *p, const char *data, size_t len) { (void)p; (void)data; (void)len; g_parser_dirty = 1; return vs_nondet_bool(); }
 static inline int vs_parser_parse(void *p)
@@ -27,6 +28,7 @@ static inline int vs_parser_parse(void *p)
     (void)p;
     if (vs_nondet_bool()) { vs_exc = vs_nondet_bool() ? VS_EXC_HTTP_ERROR : VS_EXC_RUNTIME_ERROR; return 0; }
     int st; __CPROVER_assume(st >= 0 && st <= 2);
+    if (st == VS_STATE_DONE) g_parse_done++;
     return st;
 }
 static inline void vs_parser_reset(void *p) { (void)p; g_parser_dirty = 0; g_resets++; }
@@ -46,7 +48,9 @@ STUBS = {
     'Pistache::Http::Private::ParserBase::parse': 'vs_parser_parse',
     'move': {'expr': '($0)'},
     'std::exception::what': {'expr': '"(what)"'},
-    'Pistache::Async::Resolver::operator()': {'expr': '((void)(g_resolved++), 1)'}, 'Pistache::Async::Rejection::operator()': {'expr': '((void)(g_rejected++), 1)'},
+    'Pistache::TimerPool::releaseTimer': {'expr': '((void)(g_timer_released++))'},
+    'operator()|Pistache::Async::Resolver': {'expr': '((void)(g_resolved++), 1)'}, 'operator()|Pistache::Async::Rejection': {'expr': '((void)(g_rejected++), 1)'},
+    'std::__shared_ptr<Pistache::TimerPool::Entry, __gnu_cxx::_S_atomic>::operator bool': {'expr': 'vs_nondet_bool()'}, 'std::function<void ()>::operator bool': {'expr': 'vs_nondet_bool()'},
     'operator->|std::__shared_ptr_access<Pistache::TimerPool::Entry, __gnu_cxx::_S_atomic, false, false>': {'expr': '(&vs_timer_slot)'},
     'std::unique_ptr<Pistache::Http::Experimental::Connection::RequestEntry>::operator bool': {'expr': '(($this)->has)'},
     'operator->|std::unique_ptr<Pistache::Http::Experimental::Connection::RequestEntry>': {'expr': '(&($0).v)'},
@@ -67,7 +71,13 @@ EXTRA_DECLS_AFTER_RECORD = {}
 FUNCTIONS = [
     {'q': 'Pistache::Http::Experimental::Connection::handleError', 'dflt_ref': 'malloc', 'contract': """
         requires FRESH(this, sizeof(*this)) && vs_exc == 0 && g_released <= 1
-        assigns vs_exc, g_parser_dirty, g_resets, g_released, this->requestEntry, this->parser, this->timerPool_, vs_timer_slot
+        requires g_resolved <= 1 && g_rejected <= 1
+        assigns vs_exc, g_parser_dirty, g_resets, g_released, g_resolved, g_rejected, g_timer_released, this->requestEntry, this->parser, this->timerPool_, vs_timer_slot
+        # C15: the outstanding request (if any) is rejected, exactly once, never fulfilled; without one nothing is settled; the entry is dropped
+        ensures g_resolved == OLD(g_resolved) && g_rejected <= OLD(g_rejected) + 1 && (!OLD(this->requestEntry.has) ==> g_rejected == OLD(g_rejected))
+        ensures (vs_exc == 0 && OLD(this->requestEntry.has)) ==> g_rejected == OLD(g_rejected) + 1
+        # a rejected request is no longer outstanding (so it cannot be settled a second time), and no entry appears from nowhere
+        ensures (g_rejected == OLD(g_rejected) + 1 ==> !this->requestEntry.has) && (!OLD(this->requestEntry.has) ==> !this->requestEntry.has)
         # C04 (client): the failed response does not stay in the parser -- it is reset, and only then may the connection be released
         ensures !g_parser_dirty && g_resets == OLD(g_resets) + 1
         ensures g_released <= OLD(g_released) + 1 && (!OLD(this->requestEntry.has) ==> g_released == OLD(g_released))
@@ -76,7 +86,15 @@ FUNCTIONS = [
         ensures g_released > OLD(g_released) ==> !this->requestEntry.has"""},
     {'q': 'Pistache::Http::Experimental::Connection::handleResponsePacket', 'dflt_ref': 'malloc', 'contract': """
         requires FRESH(this, sizeof(*this)) && vs_exc == 0 && g_released == 0
-        assigns vs_exc, g_parser_dirty, g_resets, g_released, this->requestEntry, this->parser, this->timerPool_, vs_timer_slot
+        requires g_resolved == 0 && g_rejected == 0 && g_timer_released == 0 && g_parse_done == 0
+        assigns vs_exc, g_parser_dirty, g_resets, g_released, g_resolved, g_rejected, g_timer_released, g_parse_done, this->requestEntry, this->parser, this->timerPool_, vs_timer_slot
+        # C15: the promise of the outstanding request is settled at most once by a packet: fulfilled only when the parser reported the
+        # response complete (and then with this connection's parsed response), rejected only on a parser error / oversize; a packet
+        # arriving with no outstanding request settles nothing; a settled request is no longer outstanding
+        ensures g_resolved + g_rejected <= 1 && (g_resolved == 1 ==> g_parse_done == 1)
+        ensures !OLD(this->requestEntry.has) ==> (g_resolved == 0 && g_rejected == 0)
+        ensures (vs_exc == 0 && g_resolved + g_rejected == 1) ==> !this->requestEntry.has
+        ensures (vs_exc == 0 && OLD(this->requestEntry.has) && g_parse_done == 1) ==> g_resolved + g_rejected == 1
         # whenever the connection is released during this call (asserted at the callback) the parser had been reset; a response that is
         # complete, too large or malformed never leaves its bytes in the parser; an incomplete one stays for the next packet
         ensures g_released <= 1
@@ -84,7 +102,25 @@ FUNCTIONS = [
 ]
 # `parser` is a data member of the concrete type ResponseParser: the dynamic type of the object is fixed by construction
 DEVIRT = {('Pistache_Http_Experimental_Connection_handleError', 'reset'): 'vs_parser_reset', ('Pistache_Http_Experimental_Connection_handleResponsePacket', 'reset'): 'vs_parser_reset'}
+FUNCTIONS += [
+    {'q': 'Pistache::Http::Experimental::Connection::handleTimeout', 'dflt_ref': 'malloc', 'contract': """
+        requires FRESH(this, sizeof(*this)) && vs_exc == 0 && g_released == 0 && g_resolved == 0 && g_rejected == 0 && g_timer_released == 0
+        assigns vs_exc, g_parser_dirty, g_resets, g_released, g_resolved, g_rejected, g_timer_released, this->requestEntry, this->parser, this->timerPool_, vs_timer_slot
+        # C15: a time-out rejects the outstanding request, exactly once, never fulfils it; its timer goes back to the pool once; the entry is
+        # dropped before the connection is released (at most one release); without an outstanding request nothing happens
+        ensures g_resolved == 0 && g_rejected <= 1 && g_timer_released <= 1 && (!OLD(this->requestEntry.has) ==> (g_rejected == 0 && g_timer_released == 0))
+        ensures (vs_exc == 0 && OLD(this->requestEntry.has)) ==> (g_rejected == 1 && g_timer_released == 1)
+        ensures g_released <= 1 && (!OLD(this->requestEntry.has) ==> g_released == 0)
+        ensures vs_exc == 0 ==> !this->requestEntry.has
+        # C04 (client): the connection goes back to the pool only with its response parser reset (asserted at the release callback)
+        ensures g_released == 1 ==> !g_parser_dirty"""},
+]
+DEVIRT[('Pistache_Http_Experimental_Connection_handleTimeout', 'reset')] = 'vs_parser_reset'
+PRELUDE_AFTER_RECORDS = r'''
+_Static_assert(VS_STATE_DONE == Pistache_Http_Private_State_Done, "VS_STATE_DONE is Private::State::Done");
+'''
 PROOFS = [
-    {'name': 'Connection_handleError', 'enforce': 'Pistache_Http_Experimental_Connection_handleError', 'props': ['C04']},
-    {'name': 'Connection_handleResponsePacket', 'enforce': 'Pistache_Http_Experimental_Connection_handleResponsePacket', 'replace': ['Pistache_Http_Experimental_Connection_handleError'], 'props': ['C04']},
+    {'name': 'Connection_handleError', 'enforce': 'Pistache_Http_Experimental_Connection_handleError', 'props': ['C04', 'C15']},
+    {'name': 'Connection_handleTimeout', 'enforce': 'Pistache_Http_Experimental_Connection_handleTimeout', 'props': ['C04', 'C15']},
+    {'name': 'Connection_handleResponsePacket', 'enforce': 'Pistache_Http_Experimental_Connection_handleResponsePacket', 'replace': ['Pistache_Http_Experimental_Connection_handleError'], 'props': ['C04', 'C15']},
 ]
